@@ -65,6 +65,8 @@ def _configs(tier):
     for aw, dw in ([(1, 1), (1, 2), (2, 1), (2, 2)] if T else [(1, 1), (1, 2), (2, 1)]):
         out.append({'block': 'SynchronousMemory', 'aw': aw, 'dw': dw})
     out.append({'block': 'DualPortSynchronousMemory', 'aw': 1, 'dw': 1})
+    out.append({'block': 'SynchronousMemory', 'aw': 1, 'dw': 2, 'rw': 1})      # read port narrower / wider than the cells
+    out.append({'block': 'SynchronousMemory', 'aw': 1, 'dw': 1, 'rw': 2})
     # wide configurations (sizes that invite special-casing); data inputs restricted to boundary values ('corner')
     for w in ((8, 16, 31, 32, 33, 63, 64, 65) if T else (8, 32, 33, 64)):
         out.append({'block': 'Reg', 'w': w, 'e': 1, 'r': 1, 'rv': (1 << w) - 1, 'corner': 1})
@@ -176,9 +178,9 @@ def build(d):
     elif b == 'SynchronousMemory':
         aw, dw = d['aw'], d['dw']
         ra, wa, wr, wd = I('read_address', aw), I('write_address', aw), I('write'), I('writedata', dw)
-        rd = O('readdata', dw)
+        rd = O('readdata', d.get('rw', dw))
         py4hw.SynchronousMemory(hw, 'dut', ra, wa, wr, rd, wd)
-        model = seq.SyncMemModel(aw, dw)
+        model = seq.SyncMemModel(aw, dw, d.get('rw'))
     elif b == 'DualPortSynchronousMemory':
         aw, dw = d['aw'], d['dw']
         ra, wa, wr, wd = I('read_address_a', aw), I('write_address_a', aw), I('write_a'), I('writedata_a', dw)
